@@ -14,13 +14,24 @@ PROP = "C01"
 FRAGMENTS = ["echo ", "a", " ", "'", '"', "$", "$(", ")", "${", "}", "$((", "))", "`", "\\", "\n", ";", "&&", "||", "|", "&", "<<E\n", "E\n", "<", ">", ">>", "2>&1",
              "if ", "then ", "fi", "for i in ", "do ", "done", "case x in ", "esac", "{ ", "(", "é", "🚀", "#", "*", "?", "[", "]", "~", "{a,b}", "{1..3}", "x=", "!",
              "[[ ", " ]]", "function f ", "() ", "$'", "\\x", "-", "=", "0", "9223372036854775807", "$@", "${x:-", "${#x}", "<(", "time ", "coproc ", "select "]
-BOUNDARY = ["0", "1", "-1", "2147483648", "9223372036854775807", "9223372036854775808", "-9223372036854775808", "99999999999999999999", "08", "0x", "64#_", "65#1", ""]
+BOUNDARY = ["0", "1", "-1", "2147483648", "4294967295", "18446744073709551615", "9223372036854775807", "9223372036854775808", "-9223372036854775808", "99999999999999999999", "08", "0x", "64#_", "65#1", ""]
 TEMPLATES = ["echo {1..%s}", "echo {%s..3}", "echo {a..z..%s}", "echo {1..5..%s}", "echo ~%s", "echo ~-%s", "echo ~+%s", "echo x %s>/dev/null", "exec %s>&1", "x=abcdef; echo ${x:%s}",
              "x=abcdef; echo ${x:1:%s}", "echo $((%s))", "echo $((1 << %s))", "echo $((2 ** %s))", "echo $((1 / %s))", "a=(1 2 3); echo ${a[%s]}", "a=(1 2 3); a[%s]=x", "set -- a b; echo ${%s}",
              "shift %s", "break %s", "return %s", "exit %s", "ulimit -n %s", "umask %s", "printf '%%%sd' 1", "printf '%%.%sf' 1", "read -n %s x </dev/null", "history %s", "declare -i x=%s; echo $x",
              "x=é; echo ${x:%s}", "declare -c x=éa%s; echo $x", "echo ${x:-%s}", "wait %%%s", "fc -l %s", "echo $'\\x%s'", "echo $'\\u%s'", "printf '\\x%s'",
              "cd -%s", "pushd +%s", "dirs -%s", "trap : %s", "let x=%s", "(( x = %s ))", "[[ 1 -lt %s ]]", "[ 1 -lt %s ]", "test -t %s", "echo ${!x%s}", "echo ${x^^%s}", "getopts %s o", "mapfile -n %s a </dev/null",
-             "mapfile -s %s a </dev/null", "mapfile -O %s a </dev/null", "read -t %s x </dev/null", "read -u %s x", "echo ${#%s}", "for ((i=%s; i<1; i++)); do :; done", "echo {%s,}", "hash -p /bin/ls %s"]
+             "mapfile -s %s a </dev/null", "mapfile -O %s a </dev/null", "read -t %s x </dev/null", "read -u %s x", "echo ${#%s}", "for ((i=%s; i<1; i++)); do :; done", "echo {%s,}", "hash -p /bin/ls %s",
+             "printf 'a\\nb\\n' | { mapfile -O %s a; echo ${#a[@]}; }", "a=([%s]=x y); echo ${#a[@]}", "a=(x); a+=([%s]=y z); echo ${!a[@]}", "declare -A m=([%s]=x); echo ${m[%s]}".replace("%s]}", "k]}"),
+             "printf '%%s\\c%%s' %s y z", "printf 'a\\c%%s' %s y", "printf '%%b' 'a\\c' %s", "echo -e 'a\\c' %s", "printf '%%*d' %s 1", "printf '%%.*s' %s abc", "printf '%%(%%Y)T' %s", "sleep 0 %s",
+             "kill -l %s", "exit %s 1", "echo ${x:%s:%s}".replace("%s:%s", "%s:1"), "read -N %s x <<< abc", "read -d '' -n %s x <<< abc", "printf -v 'a[%s]' x; echo ${#a[@]}", "unset 'a[%s]'", "a=(1 2); echo ${a[@]:%s}",
+             "set -- a b c; echo ${@:%s}", "echo ${*:%s:2}", "x=abc; echo ${x: %s: %s}".replace(": %s}", ": 1}"), "type -a %s", "enable -n %s", "caller %s", "bind -r %s", "suspend %s", "times %s", "getopts ab o -%s"]
+# execution modes x small bodies that nest (subshell, substitution, function, eval, source, pipeline ...): tracing, verbose echo, option sets
+MODES = ["PS4='→ '; set -x", "PS4='🚀$(echo é) '; set -x", "PS4=; set -x", "PS4='é'; set -x", "unset PS4; set -x", "PS4='$( ( echo + ) ) '; set -x", "PS4='${nope?} '; set -x", "PS4='\\w \\$ é'; set -x", "set -v",
+         "set -o posix", "set -euo pipefail", "shopt -s extglob nullglob dotglob", "set -f; IFS=", "set -a", "set -T; trap ': $BASH_COMMAND' DEBUG", "trap 'echo é' ERR; set -E", "set -o noclobber", "set -m", "set -k", "set -B; set -H",
+         "shopt -s lastpipe nocasematch nocaseglob", "shopt -s failglob", "LC_ALL=C", "IFS=é", "set -- é 🚀; IFS=🚀", "trap 'echo é' EXIT RETURN", "exec 2>&1; set -xv"]
+BODIES = ["( echo é )", "echo $(echo $(echo é))", "f() { ( echo \"$1\" ); }; f é", "eval 'eval \"echo é\"'", ". /dev/stdin <<< 'echo é'", "echo é | cat | { read x; echo $x; }",
+          "for i in é 🚀; do case $i in é) echo $(( 1 + 1 ));; esac; done", "x=é; echo ${x@Q} ${x^^} ${#x} \"$*\"", "cat <<E\n$(echo é)\nE", "[[ é == ? ]] && echo 1", "a=(é 🚀); echo ${a[@]:1}", "coproc { echo é; }; wait",
+          "echo é > >(cat)", "false || echo é; ! true; echo $?", "é=1 2>/dev/null; é() { :; }; é", "while read -r l; do echo \"$l\"; done < <(printf 'é\\n🚀\\n')", "select x in é; do echo $x; break; done <<< 1", "time ( : )", "x=$(<\"/dev/null\"); echo \"${x:-é}\""]
 HERE_TAGS = ["$(", "$( ", "`", "${", "$((", "'", '"', "\\", "E", "''", "<", "&", "(", ")", "$x", "\n", "", "é", "#", "E$(", "\"E\"F", "\\E"]
 HERE_TAILS = ["", " ", "  ", "\n", " x\n", "\nE\n", "\nx\nE", "\n\n", " <<F\nE\nF\n", ")\nE\n"]
 PROMPT_DATE = ["%Q", "%", "%%", "%Ez", "%5", "%:::z", "%-", "%_Y", "%^a", "%#Z", "%+", "%s", "%N", "%f", "%.3f", "%E", "%O", "é%", "%é", "", "%Y-%m-%d %H:%M:%S %Z %z %j %U %e %k %l %p %P %c %x %X %G %g %V %u %w %C %y %D %F %T %R %r %n %t"]
@@ -111,6 +122,7 @@ def run(tier):
     nests = nest_family()
     heretags = [pre + "<<" + dash + tag + tail for pre in ("a", "cat ", "$(cat ", "{ cat ") for dash in ("", "-") for tag in HERE_TAGS for tail in HERE_TAILS]
     extras = ["x='\\D{%s}'; echo \"${x@P}\"; echo after" % sp for sp in PROMPT_DATE] + ["x='%s'; echo \"${x@P}\"; echo after" % e for e in PROMPT_ESC] + ALIASES
+    extras += [m + "\n" + b + "\necho after $?\n" for m in MODES for b in BODIES]
     for s in boundary + nests + heretags + extras:
         corpus.add(s)
     corpus.discard("")
